@@ -47,7 +47,7 @@ func init() {
 		factsOK := false
 		switch id {
 		case "C01":
-			mods = []string{"Verif.Properties.C01"}
+			mods = []string{"Verif.Properties.C01", "Verif.Properties.C01Move"}
 		case "C02":
 			mods = []string{"Verif.Properties.C02"}
 		case "C03":
